@@ -1953,6 +1953,19 @@ def _offset_forms(L, T):
     return out
 
 
+def d8_cold_draw(ck):
+    """The cold start needs n_clusters DISTINCT frames (a repeated frame would be an empty cluster: the
+    number of clusters is not kept): they have to be drawn without replacement; a rejection loop around a
+    with-replacement draw does not return for ordinary cluster counts."""
+    from . import extra
+    rule = 'C09.D8.cold-start.distinct-draw'
+    mod = ck.repo.mod(KM)
+    n = extra.distinct_random_picks(ck, rule, mod, INPUTS, why='(k-medoids cold start: kmedoids(X, metric, n_clusters=k))')
+    ck.floor(rule, n, 1, 'draw of the initial medoids in %s' % INPUTS)
+    n2 = extra.none_equality_on_sequences(ck, 'C09.D8.warm-start.none-test', mod, ['kmedoids', INPUTS])
+    ck.floor('C09.D8.warm-start.none-test', n2, 0, '')
+
+
 def d8_warm_start(ck):
     rule = 'C09.D8.warm-start'
     mod = ck.repo.mod(KM)
@@ -2317,6 +2330,7 @@ def check(ck):
     _guarded(ck, 'C09.D4.handover', d4_hybrid, ck, seed)
     d6_definite(ck)
     _guarded(ck, 'C09.D8.warm-start', d8_warm_start, ck)
+    _guarded(ck, 'C09.D8.cold-start.distinct-draw', d8_cold_draw, ck)
     _guarded(ck, 'C09.D5.seed.per-run', d5_seed_per_run, ck, seed)
     _guarded(ck, 'C09.D9.start-state-assert', d9_start_state_asserts, ck)
     return EXPLANATION
